@@ -48,10 +48,16 @@ theorem step_frame {s : Node} {c : Nat} {x : Conn} (hx : s.conns[c]? = some x) (
   | unattached d => simpa [step] using hx
   | leader a => exact absurd h id
   | request d short q =>
-    simp only [step, stepRequest]
-    split
-    · exact hx
-    · simp only; rw [List.getElem?_set_ne h]; exact hx
+    simp only [step]
+    rcases will_or_not q with ⟨wct, wcmd, rfl⟩ | hq
+    · rw [stepRequest_will]
+      split
+      · exact hx
+      · simp only; rw [List.getElem?_set_ne h]; exact hx
+    · rw [stepRequest_eq hq]
+      split
+      · exact hx
+      · simp only; rw [List.getElem?_set_ne h]; exact hx
   | leaderMsg d msg early =>
     simp only [step, stepLeaderMsg]
     repeat' split
@@ -104,8 +110,15 @@ theorem keepB_step {s : Node} {c : Nat} {x : Conn} (hx : s.conns[c]? = some x) (
   | request d short q =>
     by_cases hd : d = c
     · subst hd
-      simp only [step, stepRequest, hx, List.getElem?_set_self hlt]
-      exact ⟨_, rfl, applyConn_keepB _ hk⟩
+      rcases will_or_not q with ⟨wct, wcmd, rfl⟩ | hq
+      · simp only [step, stepRequest_will, hx, List.getElem?_set_self hlt]
+        refine ⟨_, rfl, ?_⟩
+        obtain ⟨h1, h2, h3⟩ := hk
+        unfold willConn
+        repeat' split
+        all_goals simp [KeepB, dispatched, h1, h2, h3]
+      · simp only [step, stepRequest_eq hq, hx, List.getElem?_set_self hlt]
+        exact ⟨_, rfl, applyConn_keepB _ hk⟩
     · exact ⟨x, step_frame hx (.request d short q) hd, hk⟩
   | leaderMsg d msg early =>
     by_cases hd : d = c
@@ -142,9 +155,15 @@ theorem keepT_step {s : Node} {c rid : Nat} {md : TextMode} {x : Conn} (hx : s.c
   | request d short q =>
     by_cases hd : d = c
     · subst hd
-      have hb : classify s x short q = .busy := by unfold classify; simp [k2, k4]
-      simp only [step, stepRequest, hx, hb, applyConn, List.getElem?_set_self hlt]
-      exact ⟨x, rfl, k1, k2, k3, k4, k5⟩
+      rcases will_or_not q with ⟨wct, wcmd, rfl⟩ | hq
+      · simp only [step, stepRequest_will, hx, List.getElem?_set_self hlt]
+        refine ⟨_, rfl, ?_⟩
+        unfold willConn
+        simp only [k2, k4]
+        exact ⟨k1, k2, k3, k4, k5⟩
+      · have hb : classify s x short q = .busy := by unfold classify; simp [k2, k4]
+        simp only [step, stepRequest_eq hq, hx, hb, applyConn, List.getElem?_set_self hlt]
+        exact ⟨x, rfl, k1, k2, k3, k4, k5⟩
     · exact ⟨x, step_frame hx (.request d short q) hd, k1, k2, k3, k4, k5⟩
   | leaderMsg d msg early =>
     by_cases hd : d = c
